@@ -682,6 +682,29 @@ func ruleCleanTestsEveryChild(c *Ctx, rule string) {
 		cc, ok := calleeNamed(call, "strings.HasPrefix")
 		return ok && isPrefixVal(cc.Args[1]) && strings.Contains(an.AP(cc.Args[0]), "."+a.FSegment+".") && onTrue != neg
 	}
+	// the child has no <field> entries: len(child.<field>) == 0, or its size helper == 0, on the edge taken
+	emptyEdge := func(field string) func(b *ssa.BasicBlock, succ int) bool {
+		return func(b *ssa.BasicBlock, succ int) bool {
+			return edgeHas(b, succ, func(cond ssa.Value, truth bool) bool {
+				x, k, eq, ok := an.CondAtom(cond)
+				if !ok || an.ConstKey(k) != "0" || eq != truth {
+					return false
+				}
+				call, isCall := x.(*ssa.Call)
+				if !isCall {
+					return false
+				}
+				if cc, isLen := builtinCall(call, "len"); isLen {
+					return strings.HasSuffix(an.AP(cc.Args[0]), "."+field)
+				}
+				if sg := an.StaticCallee(&call.Call); sg != nil && field == a.FHandlers {
+					return isSizeFunc(c, sg)
+				}
+				return false
+			})
+		}
+	}
+	deadMarks := 0
 	for _, g := range fns {
 		an.AllInstrs(g, func(in ssa.Instruction) {
 			call, ok := builtinCall(in, "append")
@@ -701,7 +724,59 @@ func ruleCleanTestsEveryChild(c *Ctx, rule string) {
 				return
 			}
 			dom := an.DominatedByEdge(in, testTrue)
-			c.R.Add(rule, c.fk(g), "mark-for-removal/only-behind-prefix-test", c.pos(in), dom, ifelse(dom, "a child is marked for removal only when its text starts with the prefix", "a child can be marked for removal without its text starting with the prefix (for instance because its subtree became empty): a live route whose pattern is shorter than the prefix is removed by Clean"))
+			dead := an.DominatedByEdge(in, emptyEdge(a.FHandlers)) && an.DominatedByEdge(in, emptyEdge(a.FChildren))
+			if dead {
+				deadMarks++
+			}
+			c.R.Add(rule, c.fk(g), "mark-for-removal/only-behind-prefix-test", c.pos(in), dom || dead, ifelse(dom || dead, ifelse(dom, "a child is marked for removal only when its text starts with the prefix", "a child is marked for removal when it has neither handlers nor children left (the pruning Remove does)"), "a child can be marked for removal without its text starting with the prefix and without being known to be dead — no handlers and no children — (for instance because its subtree became empty): a live route whose pattern is shorter than the prefix is removed by Clean"))
+		})
+	}
+	// a child the walk descended into may have lost its whole subtree: when it has no handlers of its own it is a dead
+	// interior node, which Remove prunes; left in place it keeps its slot in the sibling order and a later
+	// registration under it is tried before siblings registered earlier (dispatch differs from the same table built
+	// with Router.Remove). After every recursive call the child's emptiness is examined before the next child.
+	for _, g := range fns {
+		an.AllInstrs(g, func(in ssa.Instruction) {
+			call, ok := calleeIs(in, f)
+			if !ok || len(call.Args) < 1 {
+				return
+			}
+			child := an.AP(call.Args[0])
+			examines := func(t ssa.Instruction) bool {
+				cc := an.CallOf(t)
+				if cc == nil {
+					return false
+				}
+				if b, isB := cc.Value.(*ssa.Builtin); isB && b.Name() == "len" && len(cc.Args) == 1 {
+					ap := an.AP(cc.Args[0])
+					return ap == child+"."+a.FChildren || ap == child+"."+a.FHandlers
+				}
+				if sg := an.StaticCallee(cc); sg != nil && sg.Signature.Recv() != nil && isPtrToNamed(sg.Signature.Recv().Type(), a.NodeT) && len(cc.Args) == 1 && an.AP(cc.Args[0]) == child {
+					return isSizeFunc(c, sg)
+				}
+				return false
+			}
+			path := (&an.Query{
+				Block: examines,
+				Target: func(t ssa.Instruction) bool {
+					if _, isRet := t.(*ssa.Return); isRet {
+						return true
+					}
+					_, isNext := t.(*ssa.Next)
+					if isNext {
+						return true
+					}
+					// index-based range loops: the increment of the loop counter
+					if ph, isPhi := t.(*ssa.Phi); isPhi && len(ph.Edges) == 2 && ph.Comment == "rangeindex" {
+						return true
+					}
+					return false
+				},
+			}).Search(an.After(in))
+			o := c.R.Add(rule, c.fk(g), "descend:"+child+"/emptied-child-examined", c.pos(in), path == nil && deadMarks > 0, ifelse(path == nil && deadMarks > 0, "after the walk came back from a child, the child's handlers and children are examined and a dead child is marked for removal", "after the walk came back from a child whose subtree it may have emptied, the child is kept without a look at what is left of it: an interior node without handlers and children stays in the tree, keeps its place among its siblings, and a route registered under it later is tried before siblings that were registered earlier — Prefix.Clean differs from the Router.Remove calls it stands for"))
+			if path != nil {
+				o.Path = c.P.PathString(path)
+			}
 		})
 	}
 	// the walk runs on every path of Tree.Clean, from the root, with the prefix given
@@ -822,4 +897,22 @@ func mayBeNilValue(v ssa.Value) bool {
 		}
 	}
 	return true
+}
+
+// isSizeFunc: a node method without parameters that returns len(recv.handlers).
+func isSizeFunc(c *Ctx, g *ssa.Function) bool {
+	a := c.A
+	if g == nil || len(g.Blocks) != 1 || g.Signature.Recv() == nil || !isPtrToNamed(g.Signature.Recv().Type(), a.NodeT) || len(g.Params) != 1 {
+		return false
+	}
+	rets := an.Returns(g)
+	if len(rets) != 1 || len(rets[0].Results) != 1 {
+		return false
+	}
+	call, ok := rets[0].Results[0].(*ssa.Call)
+	if !ok {
+		return false
+	}
+	cc, isLen := builtinCall(call, "len")
+	return isLen && an.AP(cc.Args[0]) == "recv."+a.FHandlers
 }
